@@ -145,7 +145,16 @@ def realise(U, tok, variant=""):
     if k == "M":
         if p[1] == "S":
             return spa.Scalar()
-        return mkstate(U, int(p[1][1:]))
+        i = int(p[1][1:])
+        if "tcsink" in variant or "tcsrc" in variant:
+            # a Transcode whose input and output vocabularies DIFFER (same dimensionality): as a sink it belongs to
+            # its input vocabulary, as a source to its output vocabulary — one object, two connectors
+            j = next(j for j, (d, _) in enumerate(U.spec) if j != i and d == U.spec[i][0])
+            vin, vout = (U.vocabs[i], U.vocabs[j]) if "tcsink" in variant else (U.vocabs[j], U.vocabs[i])
+            m = spa.Transcode(input_vocab=vin, output_vocab=vout)
+            m._verif_role = tok
+            return m
+        return mkstate(U, i)
     if k == "Y":
         if p[1] == "S":
             return -spa.Scalar()
@@ -178,6 +187,8 @@ def describe(U, o):
         return "F"
     if isinstance(o, DynamicNode):
         return "Y:" + U.ty_tok(o.type)
+    if getattr(o, "_verif_role", None):
+        return o._verif_role
     if isinstance(o, spa.Scalar):
         return "M:S"
     if isinstance(o, spa.State):
@@ -455,7 +466,10 @@ class Checker:
                     ctx.fail(dict(case, **{"class": "different vocabularies combined"}), tok,
                              "rejected (different vocabularies)", where="different-vocab-accepted")
                     return
-                if la[2] is not None and lb[2] is not None and la[2] != lb[2] and accepted_finally():
+                # both TYPES carry a dimensionality when the expression is written (vocabulary or any-vocabulary-of-d):
+                # no deferral to the connection; only a vocabulary-less pointer's length is checked as late as the build
+                bare = (la[0] == "P" and la[1] is None) or (lb[0] == "P" and lb[1] is None)
+                if la[2] is not None and lb[2] is not None and la[2] != lb[2] and (not bare or accepted_finally()):
                     one = (la[0] == "P" and la[1] is None and la[2] == 1) or (lb[0] == "P" and lb[1] is None and lb[2] == 1)
                     if one:
                         ctx.fail(dict(case, **{"class": "vocabulary-less pointer of length 1 broadcast by NumPy"}), tok,
@@ -525,7 +539,7 @@ def kinds_for(U, tier):
             ks.append((f"S:V{i}", [""]))
     for i in range(len(U.spec)):
         if tier != "quick" or i < 3:
-            ks.append((f"M:V{i}", [""]))
+            ks.append((f"M:V{i}", ["", "tc"] if i in (0, 3) else [""]))
     ks.append(("M:S", [""]))
     ks.append(("Y:V0", ["", "mo"]))
     if tier != "quick":
@@ -579,6 +593,10 @@ def run(ctx):
                 if a in REPR:
                     vlist += [("", y) for y in bvs if y]
                 for va, vb in vlist:
+                    if va == "tc":
+                        va = "tcsrc"
+                    if vb == "tc":
+                        vb = "tcsink" if op == "rshift" else "tcsrc"
                     variants = {**{k: v for k, v in ((0, va), (1, vb)) if v}, **extra_variant}
                     la, lb = label(U, a), label(U, b)
                     nontrivial = any(x[1] is not None or x[3] is not None or x[0] in "SY" for x in (la, lb))
